@@ -15,6 +15,8 @@ inductive SrvEv
   | restore (b : Backup) (pq pr sendOk : Bool)
   | fileDelete | fileCorrupt | fileRepair | folderDelete
   | admin (a : Admin)
+  | dl (a : DlOp)
+  | reinstall (cfg : Option (Option Nat × Bool))
   | powerOn | powerOff
   | tick (b : Backup) (t : Nat) (pq pr big sendOk : Bool)
 
@@ -26,6 +28,8 @@ def SrvEv.apply (s : Server) : SrvEv → Server
   | .restore b pq pr k => (restoreBackup s b pq pr k).1
   | .folderDelete => s.folderDelete.1
   | .admin a => (s.admin a).1
+  | .dl a => (s.dl a).1
+  | .reinstall cfg => (s.reinstall cfg).1
   | .fileDelete => s.fileDelete.1
   | .fileCorrupt => s.fileCorrupt.1
   | .fileRepair => s.fileRepair.1
@@ -60,6 +64,7 @@ theorem Reach.invariant {A} {I : Server → Prop} (hstep : ∀ s e, A e → I s 
 def IsConnect (e : SrvEv) : Prop := ∃ j pw, e = .recv j (.connect pw)
 def IsSql (q : Sql) (e : SrvEv) : Prop := ∃ j cid, e = .recv j (.sql cid q)
 def IsDisc (e : SrvEv) : Prop := ∃ j cid, e = .recv j (.disconnect cid)
+def IsJunk (e : SrvEv) : Prop := ∃ j k, e = .recv j (.junk k)
 
 /-- Which server events an operation may cause. -/
 def OpAllows : Op → SrvEv → Prop
@@ -69,6 +74,7 @@ def OpAllows : Op → SrvEv → Prop
   | .hQuery _ q, e => IsSql q e
   | .nQuery _ q, e => IsSql q e
   | .rawDisconnect _ _, e => IsDisc e
+  | .rawJunk _ _, e => IsJunk e
   | .hDisconnect _, e => IsDisc e
   | .nDisconnect _, e => IsDisc e
   | .uninstall _, e => IsDisc e
@@ -80,6 +86,9 @@ def OpAllows : Op → SrvEv → Prop
   | .restore _ _, e => ∃ b pq pr k, e = .restore b pq pr k
   | .folderDelete, e => e = .folderDelete
   | .admin a, e => e = .admin a
+  | .dl a, e => e = .dl a
+  | .svcInstall cfg, e => e = .reinstall cfg
+  | .co _, _ => False
   | .bkDelete, _ => False
   | .dm _ q _ _ _, e => IsConnect e ∨ IsSql q e
   | .ransomReq _ q, e => IsConnect e ∨ IsSql q e
@@ -319,6 +328,10 @@ theorem step_reach (st : State) (op : Op) : Reach (OpAllows op) st.srv (step st 
     simp only [step]; split
     · exact (send_reach st i (.disconnect cid)).mono (fun e he => ⟨i, cid, he⟩)
     · exact .refl _
+  | rawJunk i k =>
+    simp only [step]; split
+    · exact (send_reach st i (.junk k)).mono (fun e he => ⟨i, k, he⟩)
+    · exact .refl _
   | hQuery h q =>
     simp only [step]; split
     · exact .refl _
@@ -376,6 +389,19 @@ theorem step_reach (st : State) (op : Op) : Reach (OpAllows op) st.srv (step st 
     · exact Reach.single (A := OpAllows (.restore d k)) st.srv (.restore st.bk st.ftpReq (st.ftpResp && d) k) ⟨_, _, _, _, rfl⟩
   | folderDelete => exact Reach.single (A := OpAllows .folderDelete) st.srv .folderDelete rfl
   | admin a => exact Reach.single (A := OpAllows (.admin a)) st.srv (.admin a) rfl
+  | dl a => exact Reach.single (A := OpAllows (.dl a)) st.srv (.dl a) rfl
+  | svcInstall cfg =>
+    simp only [step]
+    split
+    · rename_i h
+      have : (st.srv.reinstall cfg).1 = (SrvEv.reinstall cfg).apply st.srv := rfl
+      rw [this]
+      exact Reach.single (A := OpAllows (.svcInstall cfg)) st.srv (.reinstall cfg) rfl
+    · exact .refl _
+    · exact .refl _
+  | co k =>
+    simp only [step]
+    (repeat' split) <;> exact .refl _
   | bkDelete =>
     simp only [step]; split <;> exact .refl _
   | dm i q scan atk via =>
